@@ -54,9 +54,19 @@ def run(ctx):
         rq.update({"part": "witness", "instance": inst, "histories": os.path.join(tr["dir"], "challenger_histories.json"),
                    "nwitness": 40 if thorough else 6, "shard": 20})
         jobs.append(("c14", rq))
+        # the response must be derived from the witness actually supplied also when the sponge's input block is partly filled at
+        # that moment (a final polynomial of 1 or 2 coefficients; every shipped proof has 16 = four full blocks)
+        for fl in (1, 2):
+            sh = shape_of(inst, 1)
+            sh["FinalLen"] = fl
+            tr2 = tlc_with_cfg(ctx, "Transcript", transcript_cfg(sh), "Transcript_%s_f%d" % (inst, fl))
+            rq2 = dict(files)
+            rq2.update({"part": "witness", "instance": inst, "histories": os.path.join(tr2["dir"], "challenger_histories.json"),
+                        "nwitness": 10 if thorough else 3, "final_len": fl, "shard": 30 + fl})
+            jobs.append(("c14", rq2))
 
     def one(j):
-        return ctx.run_driver(j[0], j[1], tag=str(j[1].get("shard")) + j[1].get("instance", ""), timeout=3000)
+        return ctx.run_driver(j[0], j[1], tag=str(j[1].get("shard")) + j[1].get("instance", "") + str(j[1].get("final_len", "")), timeout=3000)
 
     with ThreadPoolExecutor(max_workers=common.NCPU) as ex:
         for rr in ex.map(one, jobs):
